@@ -32,7 +32,8 @@ Memchr(h, b)             == FirstIdx(Len(h), LAMBDA i : h[i+1] = b)
 Memchr2(h, b1, b2)       == FirstIdx(Len(h), LAMBDA i : h[i+1] \in {b1, b2})
 Memchr3(h, b1, b2, b3)   == FirstIdx(Len(h), LAMBDA i : h[i+1] \in {b1, b2, b3})
 
-\* position i of b1 such that b2 stands at i+d  (d < 0: never; d = 0: both bytes at the same place)
+\* position i of b1 such that b2 stands at i+d  (d = 0: both bytes at the same place; d < 0 is outside the
+\* documented domain: the definition says -1 like the code, but the harness never calls it)
 MemchrPair(h, b1, b2, d) == IF d < 0 THEN 0 - 1
                             ELSE FirstIdx(Len(h) - d, LAMBDA i : h[i+1] = b1 /\ h[i+d+1] = b2)
 
